@@ -43,18 +43,48 @@ Inductive c01case :=
 Definition mk_target (t : string * N * option Z) : target := let '(k, a, v) := t in mkT k a v.
 Definition mk_tx (t : N * string * N * N * N) : tx := let '(r, s, sn, n, h) := t in mkTx r s sn n h.
 
+Definition ca_result_agree (dom : list N) (r1 r2 : ca_result) : bool :=
+  match r1, r2 with
+  | CAFail, CAFail => true
+  | CAOk s1 l1, CAOk s2 l2 => optZ_eqb l1 l2 && forallb (fun a => (s1 a =? s2 a)%Z) dom
+  | _, _ => false
+  end.
+
 Definition chk_transfer src init tgts (obs : list (bool * option Z * list (N * Z))) : bool :=
   let st0 := lookupZ init in
   let '(st, ok, lft) := transfer_outcome st0 (change_assets_fixed (fun l => l) src (map mk_target tgts) st0) in
   negb (Nat.eqb (List.length obs) 0) &&
+  (* kernel-evaluated instance of C01_change_assets_order_indep on this input: a second oracle *)
+  ca_result_agree (map fst init) (change_assets_fixed (fun l => l) src (map mk_target tgts) st0)
+                                 (change_assets_fixed (@rev target) src (map mk_target tgts) st0) &&
   forallb (fun o : bool * option Z * list (N * Z) =>
              let '(ok', left', finals) := o in
              Bool.eqb ok ok' && (if ok then optZ_eqb lft left' else true) &&
              forallb (fun av : N * Z => (st (fst av) =? snd av)%Z) finals) obs.
 
+(* decidable form of the admissibility guard of the sorting theorems (SortProofs.txs_ok);
+   soundness: HarnessProofs.txs_okb_sound *)
+Fixpoint nodupb (l : list N) : bool :=
+  match l with
+  | [] => true
+  | x :: t => negb (existsb (N.eqb x) t) && nodupb t
+  end.
+Definition tx_eqb (a b : tx) : bool :=
+  (x_req a =? x_req b)%N && String.eqb (x_source a) (x_source b) && (x_srcnum a =? x_srcnum b)%N
+  && (x_nonce a =? x_nonce b)%N && (x_hash a =? x_hash b)%N.
+Definition txs_okb (l : list tx) : bool :=
+  nodupb (map x_hash l) &&
+  forallb (fun a => forallb (fun b =>
+     Bool.eqb (String.eqb (x_source a) (x_source b)) (x_srcnum a =? x_srcnum b)%N &&
+     implb ((x_req a =? x_req b)%N && negb (x_req a =? 0)%N) (tx_eqb a b)) l) l.
+
+(* the list is admissible, the implementation's order is the model's, and (instance of the uniqueness
+   theorem) sorting the reversed list gives the same result *)
 Definition chk_sort (txs : list (N * string * N * N * N)) (sorted : list N) : bool :=
   let l := map mk_tx txs in
-  if list_eq_dec N.eq_dec (map x_hash (sort_txs l)) sorted then true else false.
+  txs_okb l &&
+  (if list_eq_dec N.eq_dec (map x_hash (sort_txs l)) sorted then true else false) &&
+  (if list_eq_dec N.eq_dec (map x_hash (sort_txs (rev l))) sorted then true else false).
 
 Definition chk_refund pre data (obs : list (N * N * Z)) : bool :=
   let s := refund_add data (lookup_cell pre) in
